@@ -121,9 +121,110 @@ def desire_after(control, before, after, d):
     return "abort"
 
 
+def several_houses_case(rng):
+    """A plan with two or three houses, each with its own scheduled framer `w`; in one of them a clone of a moot framer --
+    reared at run time, or built with `aux ... as` -- bids `w` after some runs.  The bid is about the `w` of the clone's
+    own house, whichever house was built last."""
+    nh = rng.choice([2, 2, 3])
+    houses = ["h%d" % i for i in range(nh)]
+    hx = rng.choice(houses)
+    ctl = rng.choice(["stop", "abort", "stop"])
+    how = rng.choice(["rear", "rear", "aux-mine", "aux-named"])
+    k = rng.randint(1, 5)
+    lines = []
+    ends = {}
+    for h in houses:
+        e = rng.choice(["1.0", "1.25", "1.5", "2.0"])
+        ends[h] = e
+        wfirst = rng.random() < 0.5
+        w = ["  framer w be active first work", "    frame work", '      do vf rec with tag "%s.w.recur" at recur' % h, ""]
+        lines.append("house %s" % h)
+        lines.append("")
+        if wfirst:
+            lines += w
+        if h == hx:
+            lines += ["  framer boss be active first setup", "    frame setup"]
+            if how == "rear":
+                lines.append("      rear stopper as mine be aux in frame hold")
+            lines += ["      go next", "    frame hold"]
+            if how == "aux-mine":
+                lines.append("      aux stopper as mine")
+            elif how == "aux-named":
+                lines.append("      aux stopper as st")
+            lines += ["      go next if elapsed >= %s" % e, "    frame finish",
+                      '      do vf rec with tag "end|%s" at enter' % h, "      bid stop all", ""]
+            lines += ["  framer stopper be moot first s1", "    frame s1", "      go next if recurred >= %d" % k, "    frame s2",
+                      '      do vf rec with tag "bid|%s|w|stopper" at enter' % ctl, "      bid %s w" % ctl, "      go next",
+                      "    frame s3", "      done me", ""]
+        else:
+            lines += ["  framer keeper be active first keep", "    frame keep", "      go next if elapsed >= %s" % e, "    frame kend",
+                      '      do vf rec with tag "end|%s" at enter' % h, "      bid stop all", ""]
+        if not wfirst:
+            lines += w
+    return {"text": "\n".join(lines) + "\n", "houses": houses, "hx": hx, "ctl": ctl, "how": how, "last": hx == houses[-1]}
+
+
+def check_several_houses(ctx, case):
+    from vf.flo import runner
+    text = case["text"]
+    res = runner.run_text(text, maxticks=40)
+    if not res.built:
+        ctx.inconclusive_case("program with several houses did not build: %s" % (res.build_msgs[-1:],))
+        return
+    if res.exc is not None:
+        ctx.fail("several-houses/run-raised/%s" % type(res.exc).__name__, "run raised %r" % (res.exc,), {"program": text})
+        return
+    tags = [e["tag"] for e in res.trace]
+    bidat = [i for i, t in enumerate(tags) if t.startswith("bid|")]
+    if len(bidat) != 1:
+        ctx.inconclusive_case("the clone's bid was executed %d times" % len(bidat))
+        return
+    ctx.hit("several_houses_" + case["how"])
+    ctx.hit("clone_bids_in_%s_house" % ("the_last" if case["last"] else "an_earlier"))
+    ok = True
+    for h in case["houses"]:
+        endat = [i for i, t in enumerate(tags) if t == "end|%s" % h]
+        sends = [s for s in res.sends if s.get("house") == h and s["tasker"] == "w" and s["caller"] == "run" and s["depth"] == 0]
+        ctx.event(len(sends))
+        upto = min(endat[0] if endat else len(tags), bidat[0] if h == case["hx"] else len(tags))
+        before = [s for s in sends if s["seq"] <= upto]
+        got = [s["control"] for s in before]
+        exp = ["start"] + ["run"] * (len(got) - 1)
+        if got != exp or not got:
+            ok = False
+            ctx.fail("several-houses/control-without-a-bid-in-its-house",
+                     "house %s: w received %s although nothing in its house had bid it anything (the clone of house %s bids %s w)" % (
+                         h, got, case["hx"], case["ctl"]), {"program": text, "house": h, "controls": got, "case": {k: v for k, v in case.items() if k != "text"}})
+        if h == case["hx"]:
+            after = [s for s in sends if s["seq"] > bidat[0]]
+            ctx.hit("clone_bid_controls_checked")
+            if not after or after[0]["control"] != case["ctl"]:
+                ok = False
+                ctx.fail("several-houses/clone-bid-not-delivered-to-its-house",
+                         "house %s: the clone bid %s w, the next run of this house's w received %s" % (
+                             h, case["ctl"], after[0]["control"] if after else "nothing"),
+                         {"program": text, "house": h, "controls_after_bid": [s["control"] for s in after],
+                          "case": {k: v for k, v in case.items() if k != "text"}})
+            else:
+                # same tick if w runs later in that tick, else the next tick
+                bt = res.trace[bidat[0]]["tick"]
+                later = any(s["tick"] == bt and s["seq"] <= bidat[0] for s in sends)     # w already ran in the bid's tick
+                want = bt + 1 if later else bt
+                if after[0]["tick"] != want:
+                    ok = False
+                    ctx.fail("several-houses/clone-bid-delivered-at-wrong-tick",
+                             "house %s: bid at tick %d, w %s in that tick; control arrived at tick %d, expected %d" % (
+                                 h, bt, "had already run" if later else "ran later", after[0]["tick"], want), {"program": text})
+    ctx.case(text, nontrivial=True, sample={"program": text, "how": case["how"]} if ctx.hits.get("several_houses_" + case["how"], 0) <= 1 else None)
+    if ok:
+        ctx.check(True, "ok")
+
+
 def worker(ctx, job):
     from vf.flo import runner, monitors
     install_fiat_contracts()
+    for seed in job.get("houses", []):
+        check_several_houses(ctx, several_houses_case(random.Random(seed)))
     for seed, fi in job["items"]:
         rng = random.Random(seed)
         prog = gen.gen_program(rng, gen.pickfeat(FEATS, fi))
@@ -277,7 +378,11 @@ def worker(ctx, job):
 def run(ctx):
     n = ctx.pick(400, 24000)
     items = [(ctx.rng.randrange(1 << 30), i % gen.nfeats(FEATS, ctx)) for i in range(n)]
-    ctx.shard([{"items": items[i::16]} for i in range(16)], timeout=ctx.pick(300, 1500))
+    hs = [ctx.rng.randrange(1 << 30) for _ in range(ctx.pick(96, 3000))]
+    ctx.shard([{"items": items[i::16], "houses": hs[i::16]} for i in range(16)], timeout=ctx.pick(300, 1500))
+    ctx.floor("clone_bid_controls_checked", 40)
+    ctx.floor("clone_bids_in_an_earlier_house", 15)
+    ctx.floor("several_houses_rear", 15)
     for k in ("stop", "start", "run", "abort", "ready"):
         ctx.floor("bid_" + k, 10)
     for k in ("FiatReady", "FiatStart", "FiatRun", "FiatStop", "FiatAbort"):
